@@ -779,7 +779,12 @@ SKIP_RECORD_PARSE:
             {
                 ssl->expectedEpoch[0] = ssl->rec.epoch[0];
                 ssl->expectedEpoch[1] = ssl->rec.epoch[1];
-                goto ADVANCE_TO_APP_DATA;
+                /* Sequence numbers restart in the new epoch. This record
+                   must still go through (and be recorded in) the replay
+                   window, or it could be delivered again later. */
+                zeroSixByte(ssl->lastRsn);
+                ssl->dtlsBitmap = 0;
+                goto DTLS_CHECK_REPLAY;
             }
 
             /* Now just skip the record as a duplicate */
@@ -843,6 +848,7 @@ SKIP_RECORD_PARSE:
             return MATRIXSSL_SUCCESS;
         }
 
+DTLS_CHECK_REPLAY:
         if (dtlsChkReplayWindow(ssl, ssl->rec.rsn) != 1)
         {
             psTraceIntDtls("Seen this record before %d\n", ssl->rec.rsn[5]);
@@ -855,7 +861,6 @@ SKIP_RECORD_PARSE:
             return MATRIXSSL_SUCCESS;
         }
     }
-ADVANCE_TO_APP_DATA:
 #endif /* USE_DTLS */
 
 #ifdef USE_MATRIXSSL_STATS
